@@ -322,6 +322,14 @@ fn plain_cases(tier: Tier) -> Vec<Case> {
         }
     }
     if tier == Tier::Thorough {
+        // [2,2] over the full alphabet
+        for &mb in &[Mailbox::U, Mailbox::B(0), Mailbox::B(1)] {
+            for a in seqs(&ALL, 2) {
+                for b in seqs(&ALL, 2) {
+                    v.push(make_case(&[a.clone(), b], mb, 0, None));
+                }
+            }
+        }
         let reps3 = [L::SendAddr, L::CallCal, L::CallAddr];
         for &mb in &[Mailbox::U, Mailbox::B(0), Mailbox::B(1), Mailbox::B(3)] {
             // [3,1], [2,1,1], [1,1,1,1], [3,2], [2,2,1]
@@ -333,7 +341,7 @@ fn plain_cases(tier: Tier) -> Vec<Case> {
             for a in seqs(&reps3, 2) {
                 for b in seqs(&reps3, 1) {
                     for c in seqs(&reps3, 1) {
-                        v.push(make_case(&[a.clone(), b.clone(), c], mb, 0, Some(4)));
+                        v.push(make_case(&[a.clone(), b.clone(), c], mb, 0, None));
                     }
                 }
             }
@@ -341,14 +349,14 @@ fn plain_cases(tier: Tier) -> Vec<Case> {
                 for b in seqs(&reps3, 1) {
                     for c in seqs(&reps3, 1) {
                         for d in seqs(&reps3, 1) {
-                            v.push(make_case(&[a.clone(), b.clone(), c.clone(), d], mb, 0, Some(3)));
+                            v.push(make_case(&[a.clone(), b.clone(), c.clone(), d], mb, 0, Some(6)));
                         }
                     }
                 }
             }
             for a in seqs(&reps3, 3) {
                 for b in seqs(&reps3, 2) {
-                    v.push(make_case(&[a.clone(), b], mb, 0, Some(3)));
+                    v.push(make_case(&[a.clone(), b], mb, 0, None));
                 }
             }
         }
